@@ -295,18 +295,21 @@ Definition resolve_symbol (s : text) (tb : symtab) : res value :=
   do sv <- get_symbol s tb;
   match sv with
   | VAddr i => Ok (VAddr i)
-  | VNum n => do n' <- num_of_int false (n_int n) None MNone; Ok (VNum n')
+  | VExpr _ _ _ _ true => Ok sv                 (* a symbol defined by label arithmetic: repair F46 *)
+  | VNum n => do n' <- num_of_int (n_neg n) (n_int n) None MNone; Ok (VNum n')   (* sign kept: repair F38 *)
   | _ => Ok VPyNone
   end.
 
-(* int(l / r) with Python float division: exact below 2^53 (operands are < 65536) *)
-Definition expr_arith (op : N) (l r : N) : res Z :=
-  if op =? 43 then Ok (Z.of_N l + Z.of_N r)%Z
-  else if op =? 45 then Ok (Z.of_N l - Z.of_N r)%Z
-  else if op =? 42 then Ok (Z.of_N l * Z.of_N r)%Z
-  else if r =? 0 then Diag 23 else Ok (Z.of_N (l / r)).
+(* int(l / r) with Python float division, truncating toward zero: exact below 2^53 (operands are below 65536) *)
+Definition expr_arith (op : N) (l r : Z) : res Z :=
+  if op =? 43 then Ok (l + r)%Z
+  else if op =? 45 then Ok (l - r)%Z
+  else if op =? 42 then Ok (l * r)%Z
+  else if (r =? 0)%Z then Diag 23 else Ok (Z.quot l r).
 
-(* NumericValue("{}".format(z), mode=m): the INT / NEG_INT spellings *)
+(* the signed number a numeric value stands for *)
+Definition v_signed (v : value) : Z := if v_negative v then (- Z.of_N (v_int v))%Z else Z.of_N (v_int v).
+
 Definition num_of_result (z : Z) (m : mode) : res num :=
   let h0 := init_hint None m in
   if (z <? 0)%Z then
@@ -326,7 +329,7 @@ Definition resolve_expr (l : value) (op : N) (r : value) (m : mode) (tb : symtab
   | _, _ =>
     let rm := if is_ext_mode (v_mode l') || is_ext_mode (v_mode r') then MExtended else MDirect in
     if v_is_numeric r' && v_is_numeric l' then
-      do z <- expr_arith op (v_int l') (v_int r');
+      do z <- expr_arith op (v_signed l') (v_signed r');
       do n <- num_of_result z rm;
       Ok (VNum n)
     else if v_is_address l' || v_is_address r' then Ok (VExpr l' op r' m true)
